@@ -172,7 +172,7 @@ theorem scanR_iff {σ : Type} (β : Beh σ) (n : Nat) (hβ : Disc β n) (t : Tim
             rw [foldl_scheduleNode_now]; exact hnow
           have hIH := ih (i + 1) _ (β.eval i t u).st (by omega) hlen' hnow' hok (by omega)
           have hslot := slot_after_requests (i := i) (j := j) (β.eval i t u).reqs (g := { g with cursor := i })
-            hlen hnow hlt (hβ i t u)
+            hlen hnow hlt (hβ i (by omega) t u)
           simp only [List.map_cons, List.mem_cons]
           constructor
           · rintro (h | h)
